@@ -319,8 +319,8 @@ def convention_violation(fmt, rows):
             parts = (k + " " + m).split()
             if len(parts) == 2 and parts[0].lower() in KEYS + ["x"] and parts[1].lower() in MODES:
                 return None
-        if k.lower() in KEYS and m.lower() in MODES:
-            return None  # letter case of the mode: the documentation shows lower case only
+        # ('C Major': the conventions say the case of the KEY is ignored and that no mode string other than
+        #  'major' / 'minor' (/ 'other') is accepted -- a capitalised mode is another string: violation)
         return True
     if fmt == "tempo":
         t1, t2, _ = rows[0]
@@ -488,6 +488,10 @@ def gen_rows(rng, fmt, n=None, flavor="valid"):
         return [((i * hop) if not wild else gen_float(rng, "any"),
                  [gen_float(rng, "pos") * 5 + 20 if not wild else gen_float(rng, "any")
                   for _ in range(rng.choice([0, 0, 1, 1, 2, 3, 5]))]) for i in range(n)]
+    if fmt == "ragged_int":
+        # the docstring's own example: ragged rows of integer (MIDI) values loaded with dtype=int; times stay float
+        hop = rng.choice([0.01, 0.0116, 0.5])
+        return [(i * hop, [float(rng.randrange(21, 109)) for _ in range(rng.choice([0, 1, 1, 2, 3]))]) for i in range(n)]
     if fmt == "patterns":
         pats = []
         for _ in range(rng.randrange(0, 5)):
